@@ -55,6 +55,9 @@ impl std::fmt::Display for Ipv4Subnet {
 
 impl Ipv4Subnet {
     pub fn new(addr: std::net::Ipv4Addr, prefixlen: u8) -> Result<Self, Error> {
+        if prefixlen > 32 {
+            return Err(Error::InvalidSubnet);
+        }
         let ret = Self { addr, prefixlen };
         /* If the prefix is too short, then return an error */
         if u32::from(ret.addr) & !u32::from(ret.netmask()) != 0 {
